@@ -486,7 +486,7 @@ def run(ctx):
             ctx.ev("shape.cross")
 
     # ------------------------------------------------------------------ drive
-    N = ctx.n(66, 2400)
+    N = ctx.n(51, 2400)
     for j in range(N):
         if not more():
             break
